@@ -42,27 +42,27 @@ func noiseDocBase() map[string]any {
 }
 
 var noiseMenu = []noiseOp{
-	{sql: "SELECT id, k FROM nz ORDER BY `k.v`"},                                              // sort fails on the last row, after keys of earlier rows were read
-	{sql: "SELECT g, COUNT(*) AS c FROM nz GROUP BY g HAVING SUM(w) > 0"},                   // HAVING fails on the second group
-	{sql: "SELECT * FROM nz x JOIN nu y ON x.g = y.g AND x.`b.c` = y.c"},                    // key extraction fails mid-row
-	{sql: "SELECT * FROM nz x LEFT JOIN nu y ON x.id > y.c AND FAULTB(y.c)", fault: 2},      // ON fails after a match
-	{sql: "SELECT id FROM nz WHERE s LIKE 'plain'"},                                         // wildcard-free LIKE (succeeds)
-	{sql: "SELECT id FROM nz WHERE s LIKE 'p%' OR s LIKE '('"},                              // succeeds
+	{sql: "SELECT id, k FROM nz ORDER BY `k.v`"},                                                                      // sort fails on the last row, after keys of earlier rows were read
+	{sql: "SELECT g, COUNT(*) AS c FROM nz GROUP BY g HAVING SUM(w) > 0"},                                             // HAVING fails on the second group
+	{sql: "SELECT * FROM nz x JOIN nu y ON x.g = y.g AND x.`b.c` = y.c"},                                              // key extraction fails mid-row
+	{sql: "SELECT * FROM nz x LEFT JOIN nu y ON x.id > y.c AND FAULTB(y.c)", fault: 2},                                // ON fails after a match
+	{sql: "SELECT id FROM nz WHERE s LIKE 'plain'"},                                                                   // wildcard-free LIKE (succeeds)
+	{sql: "SELECT id FROM nz WHERE s LIKE 'p%' OR s LIKE '('"},                                                        // succeeds
 	{sql: "SELECT \"id\" FROM \"nz\" WHERE \"g\" = 'a\\", opts: []genql.QueryOption{genql.PostgresEscapingDialect()}}, // rejected by the rewriter
-	{sql: "SELECT [1, [2 AS arr FROM nz", opts: []genql.QueryOption{genql.IdomaticArrays()}}, // rejected by the rewriter
-	{sql: "SELECT `items::[zz]` AS v FROM nz"},                                              // selector fails to parse in a later stage
-	{sql: "SELECT `items[(0:1:2)]` AS v FROM nz"},                                           // selector fails to parse
-	{sql: "SELECT DISTINCT g, FAULT(w) AS w FROM nz", fault: 2},                             // select list fails on the second row
-	{sql: "SELECT id FROM nz WHERE FAULT(id) > 0 ORDER BY id DESC LIMIT 1", fault: 3},       // WHERE fails on the last row
-	{sql: "SELECT SUM(g) AS s, COUNT(*) AS c FROM nz"},                                      // aggregate fails
-	{sql: "SELECT HASH(s, 'nosuchalg') AS h, ENCODE(items, 'hex') AS e FROM nz"},            // function calls fail after partial work
-	{sql: "SELECT id FROM nz WHERE EXISTS (SELECT q FROM items WHERE q > 0)"},               // EXISTS fails on a non-object element
-	{sql: "SELECT g FROM nz UNION SELECT FAULT(g) AS g FROM nu", fault: 2},                  // right union branch fails
+	{sql: "SELECT [1, [2 AS arr FROM nz", opts: []genql.QueryOption{genql.IdomaticArrays()}},                          // rejected by the rewriter
+	{sql: "SELECT `items::[zz]` AS v FROM nz"},                                                                        // selector fails to parse in a later stage
+	{sql: "SELECT `items[(0:1:2)]` AS v FROM nz"},                                                                     // selector fails to parse
+	{sql: "SELECT DISTINCT g, FAULT(w) AS w FROM nz", fault: 2},                                                       // select list fails on the second row
+	{sql: "SELECT id FROM nz WHERE FAULT(id) > 0 ORDER BY id DESC LIMIT 1", fault: 3},                                 // WHERE fails on the last row
+	{sql: "SELECT SUM(g) AS s, COUNT(*) AS c FROM nz"},                                                                // aggregate fails
+	{sql: "SELECT HASH(s, 'nosuchalg') AS h, ENCODE(items, 'hex') AS e FROM nz"},                                      // function calls fail after partial work
+	{sql: "SELECT id FROM nz WHERE EXISTS (SELECT q FROM items WHERE q > 0)"},                                         // EXISTS fails on a non-object element
+	{sql: "SELECT g FROM nz UNION SELECT FAULT(g) AS g FROM nu", fault: 2},                                            // right union branch fails
 	{sql: "WITH c AS (SELECT id, FAULT(g) AS g FROM nz) SELECT * FROM c x JOIN c y ON x.id = y.id", fault: 3},
 	{sql: "SELECT id, (SELECT FAULT(q) AS q FROM items) AS s FROM nz", fault: 1},
-	{sql: "SELECT g, COUNT(*) AS c, SUM(id) AS s FROM nz GROUP BY g ORDER BY g DESC"},       // succeeds
-	{sql: "SELECT id FROM nz ORDER BY s, id DESC LIMIT 2 OFFSET 1"},                         // succeeds
-	{sql: "SELECT ASYNC.HPANIC(id) AS p, id FROM nz"},                                       // goroutine-run call panics
+	{sql: "SELECT g, COUNT(*) AS c, SUM(id) AS s FROM nz GROUP BY g ORDER BY g DESC"}, // succeeds
+	{sql: "SELECT id FROM nz ORDER BY s, id DESC LIMIT 2 OFFSET 1"},                   // succeeds
+	{sql: "SELECT ASYNC.HPANIC(id) AS p, id FROM nz"},                                 // goroutine-run call panics
 }
 
 var noiseCounter int
